@@ -37,6 +37,9 @@ var standins = map[string][]standin{
 		{Name: "C0616", Pkg: "knx/dpt", File: "dpt_16_test.go", Run: "^TestKvcStandinC0616$",
 			Domain: "NOT exhaustive: 15-byte payloads of 16.000/16.001 in which two adjacent octets range over all 65,536 values at every position while the other octets are all 0x00, all 'A' or all 0xE9 (5.1 million payloads)",
 			Stands: "round trip of the two string types: the deductive lemma exceeds the path budget (string <-> []rune conversions inside two 14-step loops); per-octet independence of the codec is NOT proved"}},
+	"C14": {{Name: "C14RET", Pkg: "knx", File: "knx_router_test.go", Run: "^TestKvcStandinC14RET$",
+		Domain: "NOT exhaustive: the real Router on a recording socket, RetainCount 1..5 x 0..8 sends x one lost indication with count 0..10, and RetainCount 1..4 x 0..5 sends x two lost indications 0..5 each (1,359 histories), compared with a reference model of the retained window",
+		Stands: "WHICH messages are retained and resent and in which order: the deductive check models container/list as a length view, so it proves counts and the end of the list used but not the contents"}},
 	"C16": {{Name: "C16TCP", Pkg: "knx/knxnet", File: "knxnet_tcp_test.go", Run: "^TestKvcStandinC16TCP$",
 		Domain: "NOT exhaustive: one stream of 6 frames (120 bytes, 5 service types) over loopback TCP: unsplit, every single cut position, 1-byte dribble, cuts at frame boundaries, regular chunks of 2..13 bytes (134 segmentations); skipped (and said so) where loopback TCP is unavailable",
 		Stands: "independence of the TCP receiver from segmentation, which the deductive check inherits from the assumed byte-stream contract of bufio.Reader.Peek/io.ReadFull; also exactly-once, in-order surfacing and closing of Inbound after the peer closes"}},
